@@ -6,26 +6,26 @@ props = [json.loads(l) for l in open(os.path.join(ROOT, "properties.jsonl"))]
 
 # dimensions added after the seeded-change rounds (appended to the level text)
 ADDED = {
- "C01": "Also: a refresh round with two registered templates before the data (udp/dtls), and applications that reuse one list of element objects for all records.",
+ "C01": "Also: a refresh round with two registered templates before the data (udp/dtls), and applications that reuse one list of element objects for all records. The application behind the collector pauses for seconds (6.5 s over udp in quick; 33 s and 12.5 s with large messages in thorough): nothing a successful SendSet handed over may be given up.",
  "C02": "Also: applications that reuse their element objects, MakeDataSet, and a collector that does not read for a while so that sends block while the connection check runs (the stream must still tile into well-formed messages). A string element declared with a fixed length (defect D17), and reused address elements that start from a shared placeholder.",
- "C03": "Also: a fixed-length string element, unknown elements under enterprise numbers above 2^16 that alias registered ones, and the same oracle at log verbosity 5. Templates of thousands of fields (sums of widths around and beyond 2^16, fields of length zero) with data sets of up to 65000 bytes. Messages with a second set behind the first (defect D19), an application-registered element shorter than its type (D21), strings that start with a byte order mark, object identity of the delivered fields.",
+ "C03": "Also: a fixed-length string element, unknown elements under enterprise numbers above 2^16 that alias registered ones, and the same oracle at log verbosity 5. Templates of thousands of fields (sums of widths around and beyond 2^16, fields of length zero) with data sets of up to 65000 bytes. Messages with a second set behind the first (defect D19), an application-registered element shorter than its type (D21), strings that start with a byte order mark, object identity of the delivered fields. A data set shorter than its own header delivers no record (defect D28); empty and padding-only data sets over udp.",
  "C04": "Also: tcp sessions configured with a template TTL while time passes (templates of a tcp session never expire). Template records followed by more content in the same message (a second record, stray bytes, a second set).",
- "C05": "Also: fields appended to a record by the user (external fields) must survive every reset and export. A process that also merges httpVals, with values that do and do not parse.",
- "C06": "Also: one timeout switched off by the largest duration, a burst of thousands of flows through the same model, and two real-time scenarios with a blocking export callback (structural invariants only). Records that end with or before the last one from their node, and inter-node records that name neither Pod or both.",
- "C07": "Also: the exported MaxRetries setting as a case dimension (0..3). A source exporter without the destinationPodName element whose peer never reports. Exporters whose templates lack correlate elements of the other end (defect D15) and flows that one node reports denied while the other reports them as ordinary (D18).",
- "C08": "Also: template id ranges 256.., 1000.., 65533.. and the reserved range below 256. One udp and one tcp session of 70000 (thorough 140000) calls in lock step with the peer.",
- "C09": "Also: single-record sets built through MakeDataSet, and a JSON-output-mode phase (refused sets write nothing; accepted records are JSON documents; byte counts add up). Zero-field records for ids never sent, and single records whose fields are each encodable but add up beyond a message. Data sets whose header id names no sent template (defect D16) and elements of a fixed-size type declared with a shorter length (D20).",
+ "C05": "Also: fields appended to a record by the user (external fields) must survive every reset and export. A process that also merges httpVals, with values that do and do not parse. More than 100000 flows held at once.",
+ "C06": "Also: one timeout switched off by the largest duration, a burst of thousands of flows through the same model, and two real-time scenarios with a blocking export callback (structural invariants only). Records that end with or before the last one from their node, and inter-node records that name neither Pod or both. One scan whose callbacks take longer than the timeouts, with every flow due.",
+ "C07": "Also: the exported MaxRetries setting as a case dimension (0..3). A source exporter without the destinationPodName element whose peer never reports. Exporters whose templates lack correlate elements of the other end (defect D15) and flows that one node reports denied while the other reports them as ordinary (D18). Log verbosity 0/2/10 as a dimension, scans under a watchdog.",
+ "C08": "Also: template id ranges 256.., 1000.., 65533.. and the reserved range below 256. One udp and one tcp session of 70000 (thorough 140000) calls in lock step with the peer. After a udp outage no call may have counted its records twice.",
+ "C09": "Also: single-record sets built through MakeDataSet, and a JSON-output-mode phase (refused sets write nothing; accepted records are JSON documents; byte counts add up). Zero-field records for ids never sent, and single records whose fields are each encodable but add up beyond a message. Data sets whose header id names no sent template (defect D16) and elements of a fixed-size type declared with a shorter length (D20). Elements of a data type without encoder (defect D32); log verbosity as a dimension of every case.",
  "C10": "Also: the unconfigured TTL (default 1800 s). Two scenarios off the harness clock: the production clock with 30 ms passing inside the call that arms the timer, and the expiry callback racing a refresh on two goroutines for 40000 (thorough 1.5 M) rounds.",
- "C11": "Also: long-lived real plain and TLS connections whose stream pauses 6 s (thorough up to 65 s) inside a message. Thorough pauses now go to 95 and 125 s. Data sets that end with padding inside the streams. Open finding D23: an undecodable template on one connection naming the template id of another (printed as KNOWN-FINDING, excluded).",
- "C12": "Also: Stop after a Start that could not bring the server up, and hundreds of clients connected at once in waves followed by one ordinary client. The harness's TLS clients dial with a bound: a client that cannot get a session while silent clients hold connections is a failure. A collector in a child process that never loaded the registry, 24 exporters at once.",
- "C13": "Also: programs at log verbosity 5, and a burst of thousands of flows ingested and expired by concurrent goroutines (each exported exactly once). Stop while messages arrive (defect D27); pool messages that hold two records of a stream and end with a refused record.",
- "C14": "Also: JSON-mode exporters under refresh activity, the idle-close scenario over TLS, the real refresh ticker over DTLS, and a refresh round that cannot rebuild a registered template (next SendSet and Close must return). Template sets of several records that repeat templates already sent, and udp exporters configured with a connection-check interval. Sequence numbers of retransmitted templates against what is on the wire (defect D22); a peer that writes before it closes (D25).",
+ "C11": "Also: long-lived real plain and TLS connections whose stream pauses 6 s (thorough up to 65 s) inside a message. Thorough pauses now go to 95 and 125 s. Data sets that end with padding inside the streams. Open finding D23: an undecodable template on one connection naming the template id of another (printed as KNOWN-FINDING, excluded). Faulty clients that come and go beside connections that stream without pause (every faulty connection closed, the others served in order).",
+ "C12": "Also: Stop after a Start that could not bring the server up, and hundreds of clients connected at once in waves followed by one ordinary client. The harness's TLS clients dial with a bound: a client that cannot get a session while silent clients hold connections is a failure. A collector in a child process that never loaded the registry, 24 exporters at once. Stop under traffic with a steadily slow consumer: when Stop returns no goroutine is left.",
+ "C13": "Also: programs at log verbosity 5, and a burst of thousands of flows ingested and expired by concurrent goroutines (each exported exactly once). Stop while messages arrive (defect D27); pool messages that hold two records of a stream and end with a refused record. Stop right after 'go Start()' (defect D31); nodes whose templates lack correlate elements, under the race detector.",
+ "C14": "Also: JSON-mode exporters under refresh activity, the idle-close scenario over TLS, the real refresh ticker over DTLS, and a refresh round that cannot rebuild a registered template (next SendSet and Close must return). Template sets of several records that repeat templates already sent, and udp exporters configured with a connection-check interval. Sequence numbers of retransmitted templates against what is on the wire (defect D22); a peer that writes before it closes (D25). TLS sessions the collector ends without close_notify (defect D29), overlapping Close calls on a connection that closes slowly (defect D30, hook VerifWrapConn), templates registered between ticks of the real ticker.",
  "C15": "Also: every registry element of a supported type once per position, and one unknown element announced with every length 1..64 and variable-length in one lenient collector.",
- "C16": "Also: element lists holding an element whose declared type has no encoder. Records around an element without encoder judged field by field, and add calls that name another template id than the set's. Records of zero width.",
- "C17": "Also: templates of 60-140 fields and unknown elements under enterprise numbers above 2^16 that alias registered ones. Data sets that end with padding. The reverse registry must not hold the ids RFC 5103 lists as not reversible.",
- "C18": "Beyond the matrix: the collector addressed by host name, security settings with the network names tcp4/tcp6/udp4/udp6 (nothing may travel in clear), and a generated phase of server identities (intermediates presented / withheld / not a CA / expired, SAN lists with wildcards and IP literals, validity windows) judged by a predicate written from the statement. Trusted-then-untrusting exporter pairs with and without client key pairs, and server certificates 20 s from either end of their validity.",
- "C19": "Also: KafkaLogSuccesses on, a slow broker side, messages with more records than the queues hold, and a watchdog for a producer that stops making progress. One producer publishing from two channels at once.",
- "C20": "Also: records that repeat an element, and messages whose rendering is far larger than any wire message. Query strings that do not parse (defect D26).",
+ "C16": "Also: element lists holding an element whose declared type has no encoder. Records around an element without encoder judged field by field, and add calls that name another template id than the set's. Records of zero width. Histories that grow a set beyond 65535 bytes through all three add paths.",
+ "C17": "Also: templates of 60-140 fields and unknown elements under enterprise numbers above 2^16 that alias registered ones. Data sets that end with padding. The reverse registry must not hold the ids RFC 5103 lists as not reversible. MaxBufferSize of stream collectors (1024, 100, 1) as a dimension.",
+ "C18": "Beyond the matrix: the collector addressed by host name, security settings with the network names tcp4/tcp6/udp4/udp6 (nothing may travel in clear), and a generated phase of server identities (intermediates presented / withheld / not a CA / expired, SAN lists with wildcards and IP literals, validity windows) judged by a predicate written from the statement. Trusted-then-untrusting exporter pairs with and without client key pairs, and server certificates 20 s from either end of their validity. The harness process allows TLS 1.0/1.1 servers (GODEBUG), so the library's own minimum version is what is tested.",
+ "C19": "Also: KafkaLogSuccesses on, a slow broker side, messages with more records than the queues hold, and a watchdog for a producer that stops making progress. One producer publishing from two channels at once. A broker side that stalls for seconds in mid-stream.",
+ "C20": "Also: records that repeat an element, and messages whose rendering is far larger than any wire message. Query strings that do not parse (defect D26). Log verbosity 2/4/10 as a dimension.",
 }
 
 # id -> (technique, level text, level note, design ref)
